@@ -503,6 +503,14 @@ def rule_r5(ck, prog):
                 ok = True
             if kind == 'memberof' and l[0] == 'memberof' and l[1] == what:
                 ok = True
+        if ok and name == 'SetTraceFlags':
+            # the exported flags are the new span's own: every trace_flags() read in the argument is on the span's own context
+            foreign = [m for a in pts[0].n.get('args', []) if a is not None and a >= 0 for m in [pts[0].f.nodes[i] for i in list(pts[0].f.subtree(a)) + [a]]
+                       if m['k'] == 'call' and strip_targs(m.get('c', '')).rsplit('::', 1)[-1] == 'trace_flags' and m.get('obj') is not None and
+                       access_path(pts[0].f, m['obj'], pts[0].ctx)[:2] != ('this', 'span_context_')]
+            if foreign:
+                ck.violation('C04.R5', f, site, foreign[0], 'the trace flags handed to the recordable can come from another context than the span\'s own (e.g. the parent\'s): exporters see a sampled bit / flag bits that are not the sampler\'s decision for this span')
+                continue
         if not ok:
             ck.violation('C04.R5', f, site, pts[0].n, '%s is not fed from %s' % (name, what))
             continue
